@@ -4,8 +4,11 @@
 (* the specification and not from the library.                               *)
 EXTENDS StdTables, Json, IOUtils, TLC
 
+Ev == INSTANCE Events103
+
 Tables == [ gear |-> AllGearRows, gearspecial |-> GearSpecial102, dev |-> Dev103, inst |-> Inst103,
-            devspecial |-> DevSpecial103, bitnames |-> BitNames, enums |-> Enums ]
+            devspecial |-> DevSpecial103, bitnames |-> BitNames, enums |-> Enums,
+            pushbutton |-> Ev!PushButtonCodes ]
 
 ASSUME JsonSerialize(IOEnv.EXPORT_TO, Tables)
 
